@@ -261,10 +261,11 @@ def run_check(prop, tier, seed):
             replays += 1
             ok = (status == "violation" and detail == "id=" + v["id"]) or (v["kind"] == "panic" and status == "panic")
             how = "native"
-            if not ok and (any(d["kind"] in NON_NATIVE for d in (v.get("stack") or [])) or "verifvp.Stub" in detail):
+            concurrent = ((v.get("extra") or {}).get("goroutines") or 0) > 1 and status in ("pass", "error")
+            if not ok and (any(d["kind"] in NON_NATIVE for d in (v.get("stack") or [])) or "verifvp.Stub" in detail or concurrent):
                 # crash points / scheduling cannot be forced natively: replay concretely in the interpreter
                 ok = engine_replay(outdir, d, name, rp, v["id"], v["kind"])
-                how = "interpreter (crash/scheduler decisions forced or functions intercepted; native run had " + status + ")"
+                how = "interpreter (crash/scheduler decisions forced, functions intercepted, or several goroutines whose native interleaving differed; native run had " + status + ")"
             v["replayed"] = how
             if ok:
                 confirmed.append((name, v, rp))
